@@ -241,6 +241,8 @@ pub fn start_job(command: Arc<Command>) -> (Job, JoinHandle<()>) {
 								}
 								Control::ContinueTryGracefulRestart => {
 									trace!("continuing a graceful try-restart");
+									// the restart happens here: it must not happen again when the new process ends
+									on_end_restart = None;
 
 									if let CommandState::Running { child, started, .. } = &mut command_state {
 										trace!("stopping child forcefully");
